@@ -80,7 +80,11 @@ def _mk_slicing(base_mk_cls, rec, s, batch):
                 return t[s]
             if len(tshape) > len(shape) and tshape[len(tshape) - len(shape):] == shape:
                 lead = tshape[:len(tshape) - len(shape)]
-                return t[s[len(batch) - len(lead):]] if len(lead) <= len(batch) else t
+                if len(lead) > len(batch):
+                    return t
+                sub = s[len(batch) - len(lead):]
+                # a sample dimension of size one stands for every sample (broadcasting)
+                return t[tuple(0 if lead[k] == 1 else sub[k] for k in range(len(lead)))]
             raise Undecided("input %r: batched shape %s vs unbatched shape %s" % (name, tshape, shape))
     return MkSlice
 
@@ -108,7 +112,15 @@ def scn_slice(contract, factory, args_b, args_u, pick, batch):
                 raise
             except Exception as e:
                 # an unsupported shape combination that raises is an accepted outcome - provided the REAL code raises
-                # (the symbolic shim may be undefined where torch silently returns inf/nan)
+                # (the symbolic shim may be undefined where torch silently returns inf/nan) and provided the scenario itself is sound:
+                # the same scenario WITHOUT sample dimensions must run (otherwise the exception is the harness's own)
+                try:
+                    MkS0 = _mk_slicing(type(mk), rec, tuple(0 for _ in batch), batch)
+                    getattr(mod, factory)(*args_u)(MkS0() if mk.symbolic else MkS0(mk.env))
+                except (Infeasible, Undecided, Refuted):
+                    pass
+                except Exception as e0:
+                    raise RuntimeError("harness: the scenario %s%r raises without any sample dimension (%s: %s)" % (factory, tuple(args_u), type(e0).__name__, e0))
                 if not mk.symbolic:
                     return [("true", "unsupported_combination_raises", True, "%s: %s" % (type(e).__name__, e))]
                 import random as _r
@@ -256,6 +268,27 @@ def scn_joint(sample_shape, comps):
                 spec.append(tot)
             cl.append(("eq", "joint[s]_is_sum_of_components_at_s", val, spec))
         return cl
+    return scn
+
+
+def scn_gamma_dirichlet(pbatch, xbatch, which=("alpha", "c", "shape", "rate")):
+    """the real CompoundGammaDirichletPrior._call on a tree-model stub (contract: taxa_count, branch_lengths() of shape xbatch + [2T-3],
+    sample_shape); the hyper-parameters listed in `which` carry the sample shape pbatch, the others are unbatched"""
+    pbatch, xbatch = tuple(pbatch), tuple(xbatch)
+
+    def scn(mk):
+        import types
+        from torchtree.core.parameter import Parameter
+        from torchtree.distributions.tree_prior import CompoundGammaDirichletPrior
+        T = 4
+        x = mk.real("x", xbatch + (2 * T - 3,), lo=0)
+        tm = types.SimpleNamespace(taxa_count=T, branch_lengths=lambda: x, sample_shape=torch.Size(xbatch), id="tree")
+        ps = {}
+        for nme in ("alpha", "c", "shape", "rate"):
+            ps[nme] = Parameter(nme, mk.real(nme, (pbatch if nme in which else ()) + (1,), lo=0))
+        prior = CompoundGammaDirichletPrior("prior", tm, ps["alpha"], ps["c"], ps["shape"], ps["rate"])
+        val = prior._call()
+        return [("eq", "log_density", val, val)]
     return scn
 
 
@@ -661,6 +694,17 @@ def obligations(tier, seed):
                 ab = (model, T, "serial", hb, tb) + ((grid,) if grid else ())
                 au = (model, T, "serial", (), ()) + ((grid,) if grid else ())
                 add("C10.coalescent.%s[hbatch=%s,tbatch=%s]" % (model, hb, tb), "C08", "scn_coalescent", ab, au, "log_prob_is_kingman", b)
+    # sample dimensions of DIFFERENT size in one call (1 next to S): either the call raises or the size-one input stands for every sample
+    for model, grid in (("constant", None), ("exponential", None), ("skyride", None), ("skygrid", [0.4, 2.5]), ("linear", [0.4, 2.5])):
+        for hb, tb, b in (((1,), (2,), (2,)), ((2,), (1,), (2,)), ((1,), (3,), (3,))):
+            ab = (model, 2, "serial", hb, tb) + ((grid,) if grid else ())
+            au = (model, 2, "serial", (), ()) + ((grid,) if grid else ())
+            add("C10.coalescent.%s.size_one[hbatch=%s,tbatch=%s]" % (model, hb, tb), "C08", "scn_coalescent", ab, au, "log_prob_is_kingman", b)
+    # compound gamma-Dirichlet prior: hyper-parameters and / or branch lengths batched
+    for b in [(2,), (3,), (1,), (2, 2)]:
+        for pb, xb in ((b, ()), ((), b), (b, b)):
+            add("C10.gamma_dirichlet[pbatch=%s,xbatch=%s]" % (pb, xb), "C10", "scn_gamma_dirichlet", (pb, xb), ((), ()), "log_density", b)
+    add("C10.gamma_dirichlet[only alpha batched (2,),xbatch=(2,)]", "C10", "scn_gamma_dirichlet", ((2,), (2,), ["alpha"]), ((), ()), "log_density", (2,))
     # rescaled pruning functions (tip partials and tip states), sample shape equal / unequal to the number of rate categories
     for b in [(2,), (3,), (1,), (2, 2)]:
         add("C10.likelihood.rescaled[partials,K=2,batch=%s]" % (b,), "C03", "scn_rescaled", ("partials", "((0,1),2)", 2, 2, b, 1), ("partials", "((0,1),2)", 2, 2, (), 1), "rescaled_equals_plain", b)
